@@ -564,7 +564,15 @@ func c19(out *rec.Out, rng *rec.Rng, tier string, stats map[string]int) {
 				}
 				presetN = 0
 				acts := make([]c19Act, L)
-XX
+				for i := range acts {
+					acts[i].kind = k
+					if pre {
+						acts[i].preset = preset()
+					} else {
+						acts[i].blank = (i+L+ki)%3 == 0
+					}
+				}
+				run := "none"
 				if ki < c19Tasks && (L <= 3 || L == 12 || tier == "thorough") {
 					run = runMode(cnt)
 				}
@@ -617,8 +625,8 @@ XX
 						}
 						presetN = 0
 						emit(c19Script{procs: [][]c19Act{
-							{{"task", ""}, {"subProcess", preset()}, {"userTask", ""}},
-							{{"serviceTask", ""}},
+							{{kind: "task"}, {kind: "subProcess", preset: preset()}, {kind: "userTask", blank: true}},
+							{{kind: "serviceTask"}},
 						}, layout: true, cfg: c19Cfg{sx, sy, cg, rg, pg}, run: "none"})
 					}
 				}
